@@ -15,6 +15,12 @@ Three monitors, all observing the real loader / classes / run_mode of the workin
     (constructor, YAML, attribute assignment, observation sweep) is probed: an out-of-range value
     must be refused on every route (in a sweep no model may see it), an in-range or boundary value
     must be accepted and arrive.
+(4) sessions.  Histories instead of single loads: several documents (independent ones, the same text twice) are
+    loaded into one process, ONE loaded configuration is changed through public setters (readout / detector fields /
+    model arguments and enabled flags / mode settings), further documents are loaded afterwards.  Then every
+    configuration must pass monitor (1): the edited one holds file + edits and runs like Python-built objects that got
+    the same edits, every other one (loaded before or after the edit) still holds exactly its file and runs like the
+    objects built in Python from its file.  Stratified over readout form x edited part.
 """
 from __future__ import annotations
 
@@ -32,12 +38,15 @@ ID = "C12"
 LEVEL = "exploration"
 REGISTER = True
 TECHNIQUE = ("runtime monitoring: generated YAML documents vs. read-back of every loaded setting; probe-model logs and "
-             "result arrays of the YAML-built vs. the Python-built configuration; documented-range table probed through "
+             "result arrays of the YAML-built vs. the Python-built configuration, also for every configuration of a "
+             "load / edit / load history in one process; documented-range table probed through "
              "constructor / YAML / setter / sweep with a field-recording probe model")
 RULE = ("documents: 4 detector types x 3 modes, every detector field (optional ones present or absent), readout as list / "
         "scalar / numpy expression / file, outputs, observation parameters (lists, numpy expressions, vectors, strings, "
         "enabled flags, product/sequential), calibration templates with randomised settings, pipelines of probe models "
-        "with arbitrary arguments, shuffled key order; refusal: 0 / 2 / 3 modes, 0 / 2 / 4 detectors; ranges: every "
+        "with arbitrary arguments, shuffled key order; sessions: 2-4 documents per process history (fresh / same text again, "
+        "loaded before or after the edit), one configuration edited through its setters, strata readout form (omitted, list, "
+        "expression, scalar, file, int list) x edited part (readout, detector, pipeline, mode) enumerated completely; refusal: 0 / 2 / 3 modes, 0 / 2 / 4 detectors; ranges: every "
         "RANGE_TABLE entry x value class x route (enumerated completely at both tiers, concrete values random). "
         "non-trivial = every case; distinct = distinct (detector, mode, readout form, document shape) resp. "
         "(field, class, route, value) signatures")
@@ -47,7 +56,10 @@ ASSUMPTIONS = [
     "a range is demanded only where the code base documents it (error message of the constructor or of the setter); "
     "NaN counts as outside every documented closed or half-open range except for row / col, where no route refuses it",
     "WavelengthHandling.cut_off == cut_on is not probed (message says 'bigger', code accepts equality)",
-    "omitted optional settings are not compared (the statement speaks of values written in the file)",
+    "omitted optional settings are not compared (the statement speaks of values written in the file); their effect is "
+    "covered by the run parity with Python objects built without them",
+    "in a session only one configuration is edited, and only with values its setters document as legal; a legal edit "
+    "that is refused is counted (session_edit_refused), the range probes own that verdict",
 ]
 REQUIRED_COUNTERS = ["docs_loaded", "docs_loaded_from_file", "settings_compared", "expr_settings_compared",
                      "parity_runs", "parity_arrays_compared", "parity_events_compared", "calibration_docs",
